@@ -155,69 +155,78 @@ fn engine_conc(args: &Args) -> i32 {
     let first = args.u64("first", 0);
     let len = args.u64("len", 8) as usize;
     let delay = args.u64("delay", 1) as u8;
+    let forced = args.u64("forced", 0); // expand the first `forced` scenarios into a forced-preemption sweep
     let scen = args.str("scen", "all");
     let hooked = conc::install_hook(delay, seed);
     let mut st = conc::CStats::new();
     let mut nviol = 0;
-    for k in first..first + n {
-        let cseed = seed
-            .wrapping_mul(0x1000_0000)
-            .wrapping_add(k)
-            .wrapping_mul(0x9E37_79B9_7F4A_7C15)
-            >> 8;
-        let which = if scen == "all" {
-            ["clonedrop", "uniqpoll", "cow", "unwraprace"][(k % 4) as usize].to_string()
-        } else {
-            scen.clone()
-        };
+    let run_scn = |k: u64, st: &mut conc::CStats| -> (Result<(), (Viol, Vec<String>)>, String, usize) {
+        let cseed = seed.wrapping_mul(0x1000_0000).wrapping_add(k).wrapping_mul(0x9E37_79B9_7F4A_7C15) >> 8;
+        let which = if scen == "all" { ["clonedrop", "uniqpoll", "cow", "unwraprace"][(k % 4) as usize].to_string() } else { scen.clone() };
         let nthreads = 2 + ((k / 4) % 3) as usize;
-        let r = match which.as_str() {
+        let r = catch(|| match which.as_str() {
             "clonedrop" => match (k / 4) % 3 {
-                0 => conc::clonedrop(cseed, &conc::make_w1, nthreads, len, &mut st),
-                1 => conc::clonedrop(cseed, &conc::make_w2, nthreads, len, &mut st),
-                _ => conc::clonedrop(cseed, &conc::make_w2_fat, nthreads, len, &mut st),
+                0 => conc::clonedrop(cseed, &conc::make_w1, nthreads, len, st),
+                1 => conc::clonedrop(cseed, &conc::make_w2, nthreads, len, st),
+                _ => conc::clonedrop(cseed, &conc::make_w2_fat, nthreads, len, st),
             },
-            "uniqpoll" => conc::uniqpoll(
-                cseed,
-                if scen == "all" {
-                    (k / 4) as usize
-                } else {
-                    k as usize
+            "uniqpoll" => conc::uniqpoll(cseed, if scen == "all" { (k / 4) as usize } else { k as usize }, 1 + ((k / 32) % 2) as usize, st),
+            "cow" => conc::cow(cseed, if scen == "all" { (k / 4) as usize } else { k as usize }, 1 + ((k / 12) % 2) as usize, st),
+            _ => conc::unwraprace(cseed, 2 + ((k / 4) % 2) as usize, st),
+        });
+        let r = match r {
+            Ok(r) => r,
+            Err(msg) => Err((
+                Viol {
+                    props: match which.as_str() {
+                        "clonedrop" => "C02",
+                        "uniqpoll" => "C03",
+                        "cow" => "C08",
+                        _ => "C09",
+                    },
+                    oracle: "panic",
+                    msg: format!("[{}] the spawning thread panicked inside the library: {}", which, msg),
                 },
-                1 + ((k / 32) % 2) as usize,
-                &mut st,
-            ),
-            "cow" => conc::cow(
-                cseed,
-                if scen == "all" {
-                    (k / 4) as usize
-                } else {
-                    k as usize
-                },
-                1 + ((k / 12) % 2) as usize,
-                &mut st,
-            ),
-            _ => conc::unwraprace(cseed, 2 + ((k / 4) % 2) as usize, &mut st),
+                vec![],
+            )),
         };
+        (r, which, nthreads)
+    };
+    'outer: for k in first..first + n {
+        conc::set_pause(255, 0, 0);
+        let (r, which, nthreads) = run_scn(k, &mut st);
         st.counts.bump("conc.executions");
-        if let Err((v, trace)) = r {
-            if v.oracle == "harness" {
-                eprintln!("harness problem: {}", v.msg);
-                return 3;
+        let mut results = vec![(r, "free-running".to_string())];
+        if k - first < forced && hooked && results[0].0.is_ok() {
+            // hold each thread at each of its count operations (before and after) until the others are done
+            let ords = st.last_ords.clone();
+            for (tid, cnt) in ords.iter().enumerate() {
+                for at in 0..(*cnt).min(24) {
+                    for phase in 0..2u8 {
+                        conc::set_pause(tid as u8, at, phase);
+                        let (r, _, _) = run_scn(k, &mut st);
+                        st.counts.bump("conc.forced_runs");
+                        if r.is_err() {
+                            results.push((r, format!("thread {} held {} its count operation #{}", tid, if phase == 0 { "before" } else { "after" }, at)));
+                            break;
+                        }
+                    }
+                }
             }
-            emit_violation(
-                &v,
-                "conc",
-                seed,
-                &format!(
-                    "k={} scen={} threads={} len={} delay={}",
-                    k, which, nthreads, len, delay
-                ),
-                &trace,
-            );
-            nviol += 1;
-            if nviol >= 3 {
-                break;
+            conc::set_pause(255, 0, 0);
+            st.counts.bump("conc.forced_scenarios");
+        }
+        for (r, how) in results {
+            if let Err((v, trace)) = r {
+                if v.oracle == "harness" {
+                    eprintln!("harness problem: {}", v.msg);
+                    return 3;
+                }
+                emit_violation(&v, "conc", seed, &format!("k={} scen={} threads={} len={} delay={} schedule={}", k, which, nthreads, len, delay, how), &trace);
+                nviol += 1;
+                if nviol >= 3 {
+                    break 'outer;
+                }
             }
         }
     }
